@@ -1,3 +1,4 @@
+import re
 """E2 query table (mir2smt).  Each query: real function (MIR name regex), pre, post, bounds, replay."""
 BV64 = ("bv", 64, False)
 BOOL = ("bool",)
@@ -516,3 +517,74 @@ Q(name="e2_on_packet_authenticated", props=["C04"], func=r"connection/mod\.rs:24
   functions=["Connection::on_packet_authenticated"], pre=opa_pre, post=opa_post,
   bounds="every space, ECN mark, packet number (or none: Retry / Version Negotiation), side; timer helpers and discard_space opaque with a declared write set",
   replay=("conn_on_packet_authenticated_native", lambda m: [dict(has_pn=0), dict(has_pn=1)]))
+
+
+# ------------------------------------------------------------------ C10: frame::Iter::try_next reads the fields of each fixed-layout frame in wire order (RFC 9000 §19)
+# variant -> (frame types, [(leaf of the decoded frame, leaf of the k-th read's Ok value)], replay kind)
+_SID, _VI, _U64 = ".0", ".0", ""
+FRAME_LAYOUT = {
+    "ResetStream":        ([0x04], [(".0.0.0", ".0"), (".0.1.0", ".0"), (".0.2.0", ".0")], 0),
+    "StopSending":        ([0x05], [(".0.0.0", ".0"), (".0.1.0", ".0")], 1),
+    "MaxData":            ([0x10], [(".0.0", ".0")], 2),
+    "MaxStreamData":      ([0x11], [(".0.0", ".0"), (".1", "")], 3),
+    "MaxStreams":         ([0x12, 0x13], [(".1", "")], 4),
+    "DataBlocked":        ([0x14], [(".0", "")], 5),
+    "StreamDataBlocked":  ([0x15], [(".0.0", ".0"), (".1", "")], 6),
+    "StreamsBlocked":     ([0x16, 0x17], [(".1", "")], 7),
+    "RetireConnectionId": ([0x19], [(".0", "")], 8),
+    "PathChallenge":      ([0x1a], [(".0", "")], 9),
+    "PathResponse":       ([0x1b], [(".0", "")], 9),
+    "AckFrequency":       ([0xaf], [(".0.0.0", ".0"), (".0.1.0", ".0"), (".0.2.0", ".0"), (".0.3.0", ".0")], 10),
+}
+
+
+def fo_pre(c):
+    return "true"
+
+
+def fo_post(c, p):
+    st = p.p.state
+    res = st.store.get("_0#discr")
+    if res is None or res.t != bv(0):
+        return "true"                       # Err results: nothing to check here (totality is C03's)
+    fv = st.store.get("_0@Ok.0#discr")
+    if fv is None:
+        return "false"
+    frame_enum = c.ex.enums["Frame"]
+    calls = [x for x in st.calls if re.search(r"get_var|Codec>::decode|take_len|scan_ack_blocks", x[0])]
+    ty = c.ex.read_key(st, calls[0][2] + "@Ok.0", BV64).t
+    conj = []
+    m = re.match(r"^\(_ bv(\d+) 64\)$", fv.t)
+    variant = frame_enum[int(m.group(1))]
+    # type -> variant for the fixed-layout frames (both directions)
+    for name, (types, fields, _) in FRAME_LAYOUT.items():
+        is_ty = or_(*[eq(ty, bv(t)) for t in types])
+        if name == variant:
+            conj.append(is_ty)
+        else:
+            conj.append(not_(is_ty))
+    if variant in FRAME_LAYOUT:
+        types, fields, _ = FRAME_LAYOUT[variant]
+        reads = calls[1:]
+        if len(reads) != len(fields):
+            return "false"
+        base = "_0@Ok.0@%s" % variant
+        for (fleaf, rleaf), call in zip(fields, reads):
+            got = c.ex.read_key(st, base + fleaf, BV64).t
+            src = c.ex.read_key(st, call[2] + "@Ok.0" + rleaf, BV64).t
+            conj.append(eq(got, src))
+        if variant in ("MaxStreams", "StreamsBlocked"):
+            d = c.ex.read_key(st, base + ".0#discr", I64).t       # Dir: Bi = 0, Uni = 1
+            conj.append(eq(d, ite(eq(ty, bv(types[0])), bv(0), bv(1))))
+    return and_(*conj)
+
+
+def _fo_replay(m):
+    return [dict(salt=0), dict(salt=5)]
+
+
+Q(name="e2_frame_field_order", props=["C10"], func=r"frame\.rs[^>]*>::try_next$",
+  functions=["frame::Iter::try_next"], pre=fo_pre, post=fo_post,
+  bounds="every path of the decoder: for the 14 fixed-layout frame types the decoded variant is the one RFC 9000 §19 / the ack-frequency draft assign to the type value, and each field is the value of the read at its wire position (reads from the buffer are opaque, in program order); variable-layout frames (ACK, CRYPTO, STREAM, NEW_CONNECTION_ID, CLOSE, DATAGRAM, NEW_TOKEN) only contribute the type -> variant check",
+  allowed_panics=r".",     # panic freedom of the decoder is not this query's subject (the reads' bounds checks are opaque here)
+  replay=("frame_fixed_roundtrip_native", _fo_replay))
